@@ -641,6 +641,15 @@ func (c *Compiler) compileForStatement(stmt *ast.ForStatement) error {
 	c.symbolTable.Define(iterVarName, iterNameIdx)
 	c.emitWithOperand(vm.OpStoreVar, uint32(iterNameIdx))
 
+	// The VM keeps all variables of a route in one flat name-keyed store, so
+	// a loop variable named like a variable that is visible here would
+	// overwrite it instead of shadowing it for the duration of the loop.
+	for _, name := range []string{stmt.KeyVar, stmt.ValueVar} {
+		if _, visible := parentSymbolTable.Resolve(name); visible && name != "" {
+			c.limitations = append(c.limitations, Limitation{Construct: "loop variable " + name + " shadows a variable"})
+		}
+	}
+
 	// Define loop variables in symbol table
 	valueNameIdx := c.addConstant(vm.StringValue{Val: stmt.ValueVar})
 	c.symbolTable.Define(stmt.ValueVar, valueNameIdx)
